@@ -1,4 +1,5 @@
 import Tengo.Proofs.F0Stmts
+import Tengo.Proofs.F1Stmts
 import Tengo.Model.F0Compile
 import Tengo.Model.SpecEval
 import Tengo.Gen.Tokens
@@ -78,6 +79,65 @@ theorem program_correct_F0 (S : Sem V) (cs g : Nat → V) (ss : Stms) :
     (execs S cs ss g = none → Fails S cs (compSs 0 ss) ⟨0, [], g⟩) := by
   have h := compSs_correct S cs ss g [] [] []
   simpa [csize] using h
+
+/-! ### fragment F1 = F0 + loops (fuel-indexed reference semantics) -/
+
+/-- **C01 on fragment F1** (F0 plus `for cond {…}`, `for {…}`, and three-clause loops without
+break/continue). For every fuel: if the fuel-indexed reference semantics finishes the program with
+globals `g'`, the machine started at offset 0 with an empty operand stack reaches the end of the code
+with an empty stack and globals `g'`; a run-time error of the reference semantics is an error of the
+machine. Nothing is claimed when the fuel runs out (the program may loop forever). -/
+theorem program_correct_F1 (S : Sem V) (cs g : Nat → V) (ss : Tengo.Model.F1.Stms) (f : Nat) :
+    (∀ g', Tengo.Model.F1.exec S cs f (.inr ss) g = .done g' →
+      Runs S cs (Tengo.Model.F1.compSs 0 ss) ⟨0, [], g⟩ ⟨Tengo.Model.F1.sssize ss, [], g'⟩) ∧
+    (Tengo.Model.F1.exec S cs f (.inr ss) g = .err → Fails S cs (Tengo.Model.F1.compSs 0 ss) ⟨0, [], g⟩) := by
+  have h := Tengo.Model.F1.all_ok S cs f (.inr ss) g [] [] []
+  simpa [csize, Tengo.Model.F1.compC, Tengo.Model.F1.codeSize] using h
+
+mutual
+  /-- F0 statements are F1 statements. -/
+  def embed : Stm → Tengo.Model.F1.Stm
+    | .expr e => .expr e
+    | .assign i e => .assign i e
+    | .ifs c body => .ifs c (embeds body)
+    | .ifelse c body els => .ifelse c (embeds body) (embeds els)
+  def embeds : Stms → Tengo.Model.F1.Stms
+    | .nil => .nil
+    | .cons s ss => .cons (embed s) (embeds ss)
+end
+
+mutual
+  /-- The F1 compiler (the one compared byte for byte with the real compiler on every run) emits for
+  an F0 statement exactly the code `program_correct_F0` is about. -/
+  theorem compS_embed : ∀ (s : Stm) (o : Nat), Tengo.Model.F1.compS o (embed s) = compS o s
+    | .expr e, o => by simp [embed, Tengo.Model.F1.compS, compS]
+    | .assign i e, o => by simp [embed, Tengo.Model.F1.compS, compS]
+    | .ifs c body, o => by simp [embed, Tengo.Model.F1.compS, compS, compSs_embed body]
+    | .ifelse c body els, o => by simp [embed, Tengo.Model.F1.compS, compS, compSs_embed body, compSs_embed els]
+  theorem compSs_embed : ∀ (ss : Stms) (o : Nat), Tengo.Model.F1.compSs o (embeds ss) = compSs o ss
+    | .nil, o => by simp [embeds, Tengo.Model.F1.compSs, compSs]
+    | .cons s ss, o => by simp [embeds, Tengo.Model.F1.compSs, compSs, compS_embed s, compSs_embed ss]
+end
+
+/-- Non-vacuity for loops: `i := 0; for i < 3 { i = i + 1 }` terminates with i = 3 under `natSem'`
+(binary operator 38 is `<`, everything else addition). -/
+def natSem' : Sem Nat where
+  binop := fun t a b => if t == 38 then some (if a < b then 1 else 0) else some (a + b)
+  eqv := fun a b => a == b
+  falsy := fun a => a == 0
+  neg := fun _ => none
+  bnot := fun a => some a
+  ofBool := fun b => if b then 1 else 0
+  undef := 0
+
+example :
+    let prog : Tengo.Model.F1.Stms := .cons (.assign 0 (.lit 0))
+      (.cons (.whil (.bin 38 (.glob 0) (.lit 1)) (.cons (.assign 0 (.bin 11 (.glob 0) (.lit 2))) .nil)) .nil)
+    let cs : Nat → Nat := fun k => [0, 3, 1].getD k 0
+    (match Tengo.Model.F1.exec natSem' cs 20 (.inr prog) (fun _ => 0) with
+     | .done g' => g' 0 == 3
+     | _ => false) = true := by
+  decide
 
 /-- A small concrete data semantics for non-vacuity checks: values are naturals, every binary
 operator is addition, 0 is falsy. -/
